@@ -372,6 +372,40 @@ def run_assemble(case, r):
         ok = iv.series and iv.time_num == b - a and list(iv.time) == [want_time(k) for k in range(a, b)] and list(iv.date) == [originals[k].date for k in range(a, b)]
         okd = all(np.array_equal(np.take(iv.img, j, axis=dim), originals[a + j].img) for j in range(b - a))
         r.check(ok and okd, cellb + "/time_interval", "time_interval of the assembled series returns the originals a..b-1 with their stamps", a=a, b=b, time=iv.time)
+    # ---- the assembled series is itself an operand: stacking it with one more image (and appending to
+    # a copy) leaves the series as it was, and the longer series still returns the originals
+    pre_series = digest(series)
+    kw_x = {"space_dim": dim, "scalar": payload == "scalar", "dimensions": [vs[a] * shape[a] for a in range(dim)], "origin": [3.0, -2.0, 5.0][:dim]}
+    if tk in ("dated", "dated-ref"):
+        kw_x["date"] = D0 + n * DSTEP
+        kw_x["reference_date"] = originals[0].reference_date
+    elif tk == "times":
+        kw_x["time"] = 10.0 * n
+    extra = darsia.Image((1000 * n + np.arange(int(np.prod(full)), dtype=float)).reshape(full), **kw_x)
+    try:
+        longer = darsia.stack([series, extra.copy()])
+        r.check(digest(series) == pre_series, cellb + "/operand-unchanged", "stacking an assembled series with a further image leaves the series unchanged (slices, dates, times)", time_num=series.time_num, dates=[str(d) for d in (series.date or [])])
+        r.check(longer.time_num == n + 1 and all(np.array_equal(longer.time_slice(k).img, originals[k].img) for k in range(n)) and np.array_equal(longer.time_slice(n).img, extra.img), cellb + "/data", "the longer series returns the originals and the further image")
+    except Exception as e:  # noqa: BLE001
+        r.fail(cellb + "/operand-unchanged", "an assembled series can be stacked with a further image", exception=repr(e)[:300])
+    # ---- originals of different storage types (narrower first): every slice comes back with its values
+    if payload == "scalar" and tk == "times" and how in ("stack", "append0"):
+        for dts in (("uint8", "float64"), ("float32", "float64"), ("uint8", "uint16", "float32")):
+            mixed = []
+            for k, dt_ in enumerate(dts):
+                base_k = (np.arange(int(np.prod(full))) % 200 + 1 + k).reshape(full)
+                data_k = base_k.astype(dt_) if dt_.startswith("u") else (base_k + 1.0 / 3.0 + 2.0**-30 * k).astype(dt_)
+                mixed.append(darsia.Image(data_k, time=10.0 * k, **{kk: vv for kk, vv in kw_x.items() if kk not in ("time", "date", "reference_date")}))
+            try:
+                ser = darsia.stack([m_.copy() for m_ in mixed]) if how == "stack" else None
+                if ser is None:
+                    ser = mixed[0].copy()
+                    for m_ in mixed[1:]:
+                        ser.append(m_.copy(), offset=0)
+                okm = all(np.array_equal(np.asarray(ser.time_slice(k).img, dtype=np.float64), np.asarray(mixed[k].img, dtype=np.float64)) for k in range(len(dts)))
+                r.check(okm, cellb + "/mixed-dtypes", "slices of a series assembled from images of different storage types carry the values of the originals exactly", dtypes=dts, series_dtype=str(ser.img.dtype))
+            except Exception as e:  # noqa: BLE001
+                r.fail(cellb + "/mixed-dtypes", "images of different storage types can be assembled", dtypes=dts, exception=repr(e)[:300])
     r.outcome((case, [str(t) for t in series.time]))
 
 
